@@ -45,6 +45,7 @@ func writeEvidence(cfg *RunConfig, runs []*HarnessRun, reports []*HarnessReport,
 	reach := 0
 	assumes := 0
 	var unwind []string
+	xc, xd := 0, 0
 	for i, h := range runs {
 		if h == nil {
 			continue
@@ -60,6 +61,8 @@ func writeEvidence(cfg *RunConfig, runs []*HarnessRun, reports []*HarnessReport,
 		q.Millis += rep.Queries.Millis
 		q.CacheHit += rep.Queries.CacheHit
 		assumes += h.Assumes
+		xc += h.CrossChecked
+		xd += h.CrossDisagree
 		unwind = append(unwind, h.UnwindHits...)
 		for _, k := range sortedStatKeys(h.Asserts) {
 			a := h.Asserts[k]
@@ -132,21 +135,27 @@ func writeEvidence(cfg *RunConfig, runs []*HarnessRun, reports []*HarnessReport,
 		"coverage": map[string]interface{}{
 			"states":                        states,
 			"transitions":                   trans,
-			"traces_validated_against_impl": rr.TracesOK + rr.Replays - rr.TracesOK - rr.TraceMismatch + rr.TracesOK,
+			"traces_validated_against_impl": tracesValidated(rr),
 			"samples":                       samples,
 			"explanation": "bounded symbolic execution of the real Go SSA of /repo (rebuilt from the working tree on this run) into SMT-LIB2; " +
 				"states = symbolic states explored after merging, transitions = SSA instructions executed symbolically; " +
 				"each obligation is pc => assertion decided by the solver for all values of the symbolic inputs within the harness bounds",
-			"obligations":                           obligations,
-			"discharged_by_solver":                  discharged,
-			"discharged_syntactically":              trivial,
-			"failed":                                failed,
-			"unknown":                               unknown,
-			"assert_ids_reached":                    reach,
-			"assumptions_stated":                    assumes,
-			"queries":                               map[string]int{"total": q.Queries, "sat": q.Sat, "unsat": q.Unsat, "unknown": q.Unknown, "error": q.Errors, "cache_hits": q.CacheHit},
-			"solver_ms":                             q.Millis,
-			"solver":                                solverVersion(cfg.Solver),
+			"obligations":              obligations,
+			"discharged_by_solver":     discharged,
+			"discharged_syntactically": trivial,
+			"failed":                   failed,
+			"unknown":                  unknown,
+			"assert_ids_reached":       reach,
+			"assumptions_stated":       assumes,
+			"queries":                  map[string]int{"total": q.Queries, "sat": q.Sat, "unsat": q.Unsat, "unknown": q.Unknown, "error": q.Errors, "cache_hits": q.CacheHit},
+			"solver_ms":                q.Millis,
+			"solver":                   solverVersion(cfg.Solver),
+			"cross_checked_obligations": map[string]interface{}{"second_solver": func() string {
+				if cfg.Tier == "thorough" && cfg.XSolver != "" {
+					return solverVersion(cfg.XSolver)
+				}
+				return "off in the quick tier"
+			}(), "checked": xc, "disagreements": xd},
 			"functions_encoded":                     encoded,
 			"stubs_and_intrinsics":                  stubList,
 			"uninitialised_dependency_globals_read": lazyList,
@@ -167,4 +176,16 @@ func writeEvidence(cfg *RunConfig, runs []*HarnessRun, reports []*HarnessReport,
 	if err := os.WriteFile(filepath.Join(cfg.VerifDir, "evidence", cfg.Prop+".json"), b, 0o644); err != nil {
 		fmt.Fprintf(os.Stderr, "cannot write evidence: %v\n", err)
 	}
+}
+
+// tracesValidated = sampled completed paths whose native run agreed with the engine + counterexamples that the
+// native run reproduced.
+func tracesValidated(rr *ReplayResult) int {
+	n := rr.TracesOK
+	for _, ok := range rr.Failed {
+		if ok {
+			n++
+		}
+	}
+	return n
 }
